@@ -77,6 +77,7 @@ pub fn plan(prop: &str, tier: &str) -> Plan {
         }
         "C08" => {
             profile.writes = true;
+            profile.clear_op = true;
             judge.ledger = true;
             if q { vec![(2, 3), (3, 5), (4, 5)] } else { vec![(2, 3), (3, 6), (4, 6), (4, 7)] }
         }
@@ -217,6 +218,45 @@ fn cmd_sweep(args: &[String]) -> i32 {
             break;
         }
     }
+    // boundary windows: the same judges, started from arenas whose first slot is at the end of
+    // its generation range (the one regime the ordinary sweep cannot reach by depth)
+    if !flag(args, "--no-windows") && prop != "C17" && arg(args, "--bounds").is_none()
+        && !reports.iter().any(|r| r.violations.iter().any(|v| !v.known) || r.cap_hit.is_some())
+    {
+        if let Some(r) = deep::find_retirement(70_000) {
+            let mut inits = Vec::new();
+            for k in r.saturating_sub(2)..=r + 1 {
+                inits.push(Init::Seed(format!("seed(cycles={k},slots=1)"), deep::seed_state(k, 1)));
+            }
+            // the same boundary on the second slot, with a live node in the first
+            for k in r.saturating_sub(1)..=r + 1 {
+                inits.push(Init::Seed(format!("seed(cycles={k},slots=1,offset=1)"), deep::seed_state_at(k, 1, 1)));
+            }
+            let (n, a) = (3, if tier == "quick" { 4 } else { 5 });
+            let cfg = RunCfg {
+                n, a,
+                profile: pl.profile,
+                judge: pl.judge.clone(),
+                inits,
+                threads: threads(),
+                deadline: Some(deadline),
+                state_cap: 40_000_000,
+                seed: seed(),
+                validate_paths: true,
+                keep_digests: false,
+                collision_audit: false,
+                collect: false,
+                dump_level: None,
+                dump_out: None,
+            };
+            let rep = explore::explore(&cfg, &known);
+            eprintln!(
+                "[{prop} {tier}] boundary windows around reuse cycle {r}, bounds ({n},+{a}): states={} transitions={} exhaustive={} violations={} pruned={} {:.1}s",
+                rep.states, rep.transitions, rep.exhaustive, rep.violations.len(), rep.pruned.values().sum::<u64>(), rep.wall_s
+            );
+            reports.push(rep);
+        }
+    }
     // C13: with_capacity(n) changes nothing observable: same digest stream as new(), capacity >= n
     let mut extra_unknown = 0usize;
     let mut extra = json!({});
@@ -332,8 +372,10 @@ fn cmd_pp(args: &[String]) -> i32 {
     let q = tier == "quick";
     let t0 = Instant::now();
     let known = known::Known::load(&format!("{VERIF}/known_findings.jsonl"));
-    let (max_n, full_n, k) = if q { (5, 4, 3) } else { (7, 5, 3) };
+    let (max_n, full_n, k) = if q { (7, 4, 2) } else { (8, 5, 3) };
     let max_n = arg(args, "--max-n").and_then(|s| s.parse().ok()).unwrap_or(max_n);
+    let full_n = arg(args, "--full-n").and_then(|s| s.parse().ok()).unwrap_or(full_n);
+    let k = arg(args, "--k").and_then(|s| s.parse().ok()).unwrap_or(k);
     let pool = rayon::ThreadPoolBuilder::new().num_threads(threads()).build().unwrap();
     let res = pool.install(|| pp::run(max_n, full_n, k));
     eprintln!(
@@ -570,7 +612,7 @@ fn cmd_replay(args: &[String]) -> i32 {
         let expected = pp::reference(&parent, start, &assign, mode);
         let got = ops::guarded(|| pp::render_real(&arena, ids[start], mode));
         println!("expected:\n{expected}\n--- got:\n{}", match &got { Ok(g) => g.clone(), Err(m) => format!("<panic: {m}>") });
-        if got.ok().as_ref() != Some(&expected) {
+        if got.ok().map(|g| pp::rstrip_lines(&g)) != Some(pp::rstrip_lines(&expected)) {
             println!("VIOLATION property={} replay={}", prop, path);
             return 1;
         }
@@ -595,10 +637,8 @@ fn cmd_replay(args: &[String]) -> i32 {
     };
     let init = j["init"].as_str().unwrap_or("Arena::new()");
     let mut s = if let Some(rest) = init.strip_prefix("seed(cycles=") {
-        let mut it = rest.trim_end_matches(')').split(",slots=");
-        let c: usize = it.next().and_then(|x| x.parse().ok()).unwrap_or(0);
-        let sl: usize = it.next().and_then(|x| x.parse().ok()).unwrap_or(1);
-        deep::seed_state(c, sl)
+        let nums: Vec<usize> = rest.trim_end_matches(')').split(|c: char| !c.is_ascii_digit()).filter(|x| !x.is_empty()).filter_map(|x| x.parse().ok()).collect();
+        deep::seed_state_at(*nums.first().unwrap_or(&0), *nums.get(1).unwrap_or(&1), *nums.get(2).unwrap_or(&0))
     } else if let Some(rest) = init.strip_prefix("Arena::with_capacity(") {
         state::State::initial(indextree::Arena::with_capacity(rest.trim_end_matches(')').parse().unwrap_or(0)))
     } else {
@@ -693,6 +733,8 @@ fn cmd_deep(args: &[String]) -> i32 {
     // ---- boundary windows ------------------------------------------------------------
     let mut reports: Vec<Report> = Vec::new();
     let mut window_labels = Vec::new();
+    let mut idh = json!(null);
+    let (mut idh_steps, mut idh_paths) = (0u64, 0u64);
     let cap_s: u64 = arg(args, "--cap-s").and_then(|s| s.parse().ok()).unwrap_or(if q { 45 } else { 1500 });
     let deadline = Instant::now() + Duration::from_secs(cap_s);
     let mut judge = JudgeCfg { target, ..Default::default() };
@@ -732,8 +774,42 @@ fn cmd_deep(args: &[String]) -> i32 {
                 reports.push(rep);
             }
         }
+        // ---- E2b: model-free enumeration of every new_node/remove history from the seeds ----
+        if prop == "C06" {
+            if let Some(&(r, _)) = deep.retirements.first() {
+                use rayon::prelude::*;
+                let (depth, max_live) = if q { (9, 3) } else { (11, 3) };
+                let mut seeds = Vec::new();
+                for slots in [1usize, 2] {
+                    for k in r.saturating_sub(3)..=r + 1 {
+                        seeds.push((k, slots));
+                    }
+                }
+                let results: Vec<(usize, usize, deep::IdDfsStats, Option<(Vec<String>, Failure)>)> = pool.install(|| {
+                    seeds.par_iter().map(|&(k, slots)| {
+                        let st = deep::seed_state(k, slots);
+                        let mut stats = deep::IdDfsStats { paths: 0, steps: 0, is_removed_checks: 0, panics: 0 };
+                        let r = deep::id_history_dfs(&st, depth, max_live, &mut stats);
+                        (k, slots, stats, r)
+                    }).collect()
+                });
+                let (mut paths, mut steps, mut checks, mut panics) = (0u64, 0u64, 0u64, 0u64);
+                for (k, slots, st, r) in results {
+                    paths += st.paths; steps += st.steps; checks += st.is_removed_checks; panics += st.panics;
+                    if let Some((path, f)) = r {
+                        let sig = format!("{}|id-history|-|{}", f.judge, f.sig.rsplit('|').next().unwrap_or(""));
+                        unknown += emit_simple("C06", &sig, &format!("from seed(cycles={k},slots={slots}) the calls {:?}: {}", path, f.detail), &known,
+                            json!({"engine": "id-history", "init": format!("seed(cycles={k},slots={slots})"), "calls": path}));
+                    }
+                }
+                eprintln!("[{prop} {tier}] id-history DFS from 10 boundary seeds, depth {depth}, <= {max_live} live: {paths} histories, {steps} calls, {checks} is_removed checks, {panics} panicking calls (not followed), {:.1}s", t0.elapsed().as_secs_f64());
+                idh = json!({"seeds": 10, "depth": depth, "max_live_nodes": max_live, "complete_histories": paths, "calls": steps, "is_removed_evaluations": checks, "panicking_calls_not_followed": panics});
+                idh_steps = steps;
+                idh_paths = paths;
+            }
+        }
         // ---- ordinary sweep: every allocation transition with `issued` in the state ----
-        for (n, a) in if q { vec![(3, 7), (4, 6)] } else { vec![(3, 9), (4, 8), (5, 6)] } {
+        for (n, a) in if flag(args, "--no-sweep") { vec![] } else if q { vec![(3, 7), (4, 6)] } else { vec![(3, 9), (4, 8), (5, 6)] } {
             let cfg = RunCfg {
                 n, a,
                 profile: Profile::default(),
@@ -778,6 +854,7 @@ fn cmd_deep(args: &[String]) -> i32 {
                 "last_ids": deep.ids.iter().rev().take(3).map(|i| obs::fmt_id(Some(*i))).collect::<Vec<_>>(),
             },
             "boundary_windows": window_labels,
+            "id_history_dfs": idh,
         });
         let mut ev = evidence_json(&prop, &tier, &reports, unknown, extra, vec![
             format!("the generation counter is exercised to {} cycles per slot; a wider counter is reported as 'no retirement below the cap'", deep.cycles_done),
@@ -786,8 +863,8 @@ fn cmd_deep(args: &[String]) -> i32 {
         // the deep run's own states/transitions: each cycle is two transitions through distinct arenas
         let c = ev["coverage"].as_object_mut().unwrap();
         let st = c["states"].as_u64().unwrap() + 2 * deep.cycles_done as u64;
-        let tr = c["transitions"].as_u64().unwrap() + 2 * deep.cycles_done as u64;
-        let tv = c["traces_validated_against_impl"].as_u64().unwrap() + agree as u64;
+        let tr = c["transitions"].as_u64().unwrap() + 2 * deep.cycles_done as u64 + idh_steps;
+        let tv = c["traces_validated_against_impl"].as_u64().unwrap() + agree as u64 + idh_paths;
         c.insert("states".into(), json!(st));
         c.insert("transitions".into(), json!(tr));
         c.insert("traces_validated_against_impl".into(), json!(tv));
